@@ -64,22 +64,22 @@ const (
 )
 
 type verifMsg struct {
-	hasPayload           bool
-	v4, v6               bool
-	transport            pb.TransportType
-	gen                  uint32
-	covert               string
-	prescanned           int // 0 absent, 1 false, 2 true
-	source               int // 0 absent, 1 API, 2 Detector, 3 DetectorPrescan
-	registrant           int // 0 absent, 1 IPv4, 2 IPv6
-	secret               []byte
-	wrapper              *pb.C2SWrapper
-	transportEnabled     bool
-	genKnown             bool
-	covertOK             bool
-	sourceDetector       bool
-	registrantV4         bool
-	isPrescanned         bool
+	hasPayload       bool
+	v4, v6           bool
+	transport        pb.TransportType
+	gen              uint32
+	covert           string
+	prescanned       int // 0 absent, 1 false, 2 true
+	source           int // 0 absent, 1 API, 2 Detector, 3 DetectorPrescan
+	registrant       int // 0 absent, 1 IPv4, 2 IPv6
+	secret           []byte
+	wrapper          *pb.C2SWrapper
+	transportEnabled bool
+	genKnown         bool
+	covertOK         bool
+	sourceDetector   bool
+	registrantV4     bool
+	isPrescanned     bool
 }
 
 // verifDims: number of values per message dimension (value 0 = the base value
